@@ -118,6 +118,11 @@ func (c *Cluster) fairSuffix(spec *runSpec) {
 		if c.fairQuiescentAt > 0 {
 			break
 		}
+		if abortRun.Load() {
+			c.capped = true
+			c.stats.probe("run-aborted-wall-clock")
+			break
+		}
 		if c.tooBig() {
 			// cost cap: no liveness verdict from this run
 			c.capped = true
